@@ -3,8 +3,11 @@ package main
 import (
 	"bufio"
 	"fmt"
+	"io"
 	"net"
 	"net/http"
+	"reflect"
+	"strings"
 	"sync"
 	"testing"
 	"time"
@@ -17,16 +20,18 @@ import (
 // C19 (pooled connections, wire level): "pooled connections are closed" also holds for the
 // keep-alive connections the proxy keeps open to its backends between requests. Every strategy
 // x 1..3 backends x 1..3 rounds of requests x active health checks on or off: after the
-// shutdown sequence of main() (server shutdown, then the balancer's Stop) every connection a
+// repository's shutdownGracefully (server shutdown, then the balancer's Stop) every connection a
 // backend has accepted from the proxy must be closed by the proxy; the backends only watch.
 
 // watchBackend answers every request with a small 200 on a kept-alive connection and counts
 // the connections that are open.
 type watchBackend struct {
-	l    net.Listener
-	mu   sync.Mutex
-	open int
-	seen int
+	l       net.Listener
+	mu      sync.Mutex
+	open    int
+	seen    int
+	parked  chan struct{} // a request for /hold has arrived
+	release chan struct{} // ... and is answered when this is closed
 }
 
 func newWatchBackend() *watchBackend {
@@ -34,7 +39,7 @@ func newWatchBackend() *watchBackend {
 	if err != nil {
 		panic(err)
 	}
-	b := &watchBackend{l: l}
+	b := &watchBackend{l: l, parked: make(chan struct{}, 8), release: make(chan struct{})}
 	go func() {
 		for {
 			c, err := l.Accept()
@@ -59,6 +64,10 @@ func newWatchBackend() *watchBackend {
 						return // the peer closed the connection
 					}
 					req.Body.Close()
+					if req.URL.Path == "/hold" {
+						b.parked <- struct{}{}
+						<-b.release
+					}
 					fmt.Fprintf(c, "HTTP/1.1 200 OK\r\nContent-Type: text/plain\r\nContent-Length: 2\r\n\r\nok")
 				}
 			}()
@@ -72,6 +81,22 @@ func (b *watchBackend) counts() (open, seen int) {
 	defer b.mu.Unlock()
 	return b.open, b.seen
 }
+
+// c19wParked waits for the held request and tells which backend it is parked at.
+func c19wParked(bes []*watchBackend) int {
+	cases := make([]reflect.SelectCase, 0, len(bes)+1)
+	for _, b := range bes {
+		cases = append(cases, reflect.SelectCase{Dir: reflect.SelectRecv, Chan: reflect.ValueOf(b.parked)})
+	}
+	cases = append(cases, reflect.SelectCase{Dir: reflect.SelectRecv, Chan: reflect.ValueOf(time.After(5 * time.Second))})
+	if i, _, _ := reflect.Select(cases); i < len(bes) {
+		return i
+	}
+	return -1
+}
+
+// c19wPlacements: where the signal falls relative to client traffic.
+var c19wPlacements = []string{"quiet", "request-at-its-backend", "request-header-half-sent", "quiet-after-removing-b0", "quiet-after-removing-the-backend-of-a-request-in-flight"}
 
 func TestVerifC19W(t *testing.T) {
 	r := vres.Open("C19", "W")
@@ -89,65 +114,169 @@ func TestVerifC19W(t *testing.T) {
 		for n := 1; n <= 3; n++ {
 			for rounds := 1; rounds <= 3; rounds++ {
 				for _, active := range []bool{false, true} {
-					idx++
-					if idx%shards != shard {
-						continue
-					}
-					var bes []*watchBackend
-					var urls []string
-					for i := 0; i < n; i++ {
-						b := newWatchBackend()
-						bes = append(bes, b)
-						urls = append(urls, "http://"+b.l.Addr().String())
-					}
-					cfg := baseConfig(strat, urls...)
-					if active {
-						cfg.HealthChecks.Active = config.ActiveHealthCheckConfig{Enabled: true, Interval: 3600, Timeout: 5, Path: "/"}
-					}
-					h, err := startHelios(cfg)
-					if err != nil {
-						t.Fatal(err)
-					}
-					e := &exch{addr: h.addr}
-					for i := 0; i < rounds*n; i++ {
-						resp := e.do(&wire.Request{Method: "GET", Target: "/", Header: []wire.HeaderLine{{"Host", "x.test"}, {"X-Forwarded-For", fmt.Sprintf("10.9.%d.%d", i, i*7)}}, NoBody: true}, 10*time.Second)
-						if resp.Err != "" || resp.Status != 200 {
-							t.Fatalf("%s n=%d: request %d: %d %s", strat, n, i, resp.Status, resp.Err)
+					for _, placement := range c19wPlacements {
+						if placement != "quiet" && rounds > 1 {
+							continue
 						}
-					}
-					e.close()
-					seenTotal := 0
-					for _, b := range bes {
-						_, seen := b.counts()
-						seenTotal += seen
-					}
-					h.stop() // the server first, then the balancer's Stop: the order of shutdownGracefully
-					open := 0
-					for wait := 0; wait < 100; wait++ {
-						open = 0
+						if strings.HasPrefix(placement, "quiet-after-removing") && n < 2 {
+							continue
+						}
+						idx++
+						if idx%shards != shard {
+							continue
+						}
+						var bes []*watchBackend
+						var urls []string
+						for i := 0; i < n; i++ {
+							b := newWatchBackend()
+							bes = append(bes, b)
+							urls = append(urls, "http://"+b.l.Addr().String())
+						}
+						cfg := baseConfig(strat, urls...)
+						if active {
+							cfg.HealthChecks.Active = config.ActiveHealthCheckConfig{Enabled: true, Interval: 3600, Timeout: 5, Path: "/"}
+						}
+						h, err := startHelios(cfg)
+						if err != nil {
+							t.Fatal(err)
+						}
+						e := &exch{addr: h.addr}
+						for i := 0; i < rounds*n; i++ {
+							resp := e.do(&wire.Request{Method: "GET", Target: "/", Header: []wire.HeaderLine{{"Host", "x.test"}, {"X-Forwarded-For", fmt.Sprintf("10.9.%d.%d", i, i*7)}}, NoBody: true}, 10*time.Second)
+							if resp.Err != "" || resp.Status != 200 {
+								t.Fatalf("%s n=%d: request %d: %d %s", strat, n, i, resp.Status, resp.Err)
+							}
+						}
+						e.close()
+						seenTotal := 0
 						for _, b := range bes {
-							o, _ := b.counts()
-							open += o
+							_, seen := b.counts()
+							seenTotal += seen
 						}
-						if open == 0 {
-							break
+						// the signal: main() calls shutdownGracefully (the repository's function, as it is)
+						shutdownDone := make(chan struct{})
+						signal := func() {
+							go func() {
+								shutdownGracefully(h.srv, h.lb, 8*time.Second)
+								close(shutdownDone)
+							}()
 						}
-						time.Sleep(20 * time.Millisecond)
-					}
-					evals++
-					outs.Add(fmt.Sprintf("%s/%v/%v", strat, active, open == 0))
-					if open != 0 {
-						r.Violate("C19/pooled-connection-left-open/backend-keep-alive", fmt.Sprintf("%s, %d backend(s), %d round(s) of requests, active checks %v: 2 s after the shutdown sequence %d of the %d connection(s) the proxy had opened to its backends are still open", strat, n, rounds, active, open, seenTotal), n, map[string]interface{}{"engine": "W", "test": "TestVerifC19W", "strategy": strat, "backends": n, "rounds": rounds, "active": active})
-					}
-					for _, b := range bes {
-						b.l.Close()
+						inFlight := ""
+						switch placement {
+						case "quiet":
+							signal()
+						case "quiet-after-removing-b0":
+							// the Admin API removed a backend the proxy has kept-alive connections to
+							h.lb.RemoveBackend("b0")
+							signal()
+						case "quiet-after-removing-the-backend-of-a-request-in-flight":
+							c, err := wire.Dial(h.addr)
+							if err != nil {
+								t.Fatal(err)
+							}
+							got := make(chan wire.Response, 1)
+							go func() {
+								got <- c.Do(&wire.Request{Method: "GET", Target: "/hold", Header: []wire.HeaderLine{{"Host", "x.test"}}, NoBody: true}, 10*time.Second)
+							}()
+							parkedAt := c19wParked(bes)
+							if parkedAt < 0 {
+								t.Fatalf("%s n=%d: the held request never reached a backend", strat, n)
+							}
+							h.lb.RemoveBackend(fmt.Sprintf("b%d", parkedAt))
+							close(bes[parkedAt].release)
+							resp := <-got
+							c.Close()
+							if resp.Status != 200 {
+								inFlight = fmt.Sprintf("the request that was at its backend when that backend was removed was answered %d %s", resp.Status, resp.Err)
+							}
+							signal()
+						case "request-at-its-backend":
+							// the request is parked at a backend when the signal arrives and answered 150 ms later
+							c, err := wire.Dial(h.addr)
+							if err != nil {
+								t.Fatal(err)
+							}
+							got := make(chan wire.Response, 1)
+							go func() {
+								got <- c.Do(&wire.Request{Method: "GET", Target: "/hold", Header: []wire.HeaderLine{{"Host", "x.test"}}, NoBody: true}, 10*time.Second)
+							}()
+							parkedAt := c19wParked(bes)
+							if parkedAt < 0 {
+								t.Fatalf("%s n=%d: the held request never reached a backend", strat, n)
+							}
+							signal()
+							time.Sleep(150 * time.Millisecond)
+							close(bes[parkedAt].release)
+							resp := <-got
+							c.Close()
+							if resp.Status != 200 {
+								inFlight = fmt.Sprintf("the request that was at its backend when the signal arrived was answered %d %s", resp.Status, resp.Err)
+							}
+						case "request-header-half-sent":
+							// the client has connected and sent half of its request header when the signal
+							// arrives, and the rest 150 ms later (the quantifier's "before headers")
+							c, err := net.Dial("tcp", h.addr)
+							if err != nil {
+								t.Fatal(err)
+							}
+							fmt.Fprintf(c, "GET / HTTP/1.1\r\nHost: x.te")
+							time.Sleep(30 * time.Millisecond) // let the server take the connection up
+							signal()
+							time.Sleep(150 * time.Millisecond)
+							fmt.Fprintf(c, "st\r\nX-Forwarded-For: 10.9.8.7\r\n\r\n")
+							c.SetReadDeadline(time.Now().Add(10 * time.Second))
+							resp, err := http.ReadResponse(bufio.NewReader(c), nil)
+							if err != nil {
+								inFlight = fmt.Sprintf("the request whose header was half sent when the signal arrived got no answer: %v", err)
+							} else {
+								io.Copy(io.Discard, resp.Body)
+								resp.Body.Close()
+								if resp.StatusCode != 200 {
+									inFlight = fmt.Sprintf("the request whose header was half sent when the signal arrived was answered %d", resp.StatusCode)
+								}
+							}
+							c.Close()
+						}
+						select {
+						case <-shutdownDone:
+						case <-time.After(20 * time.Second):
+							r.Violate("C19/shutdown-does-not-return/wire", fmt.Sprintf("%s, %d backend(s), active checks %v, %s: shutdownGracefully (timeout 8 s) has not returned after 20 s", strat, n, active, placement), n, map[string]interface{}{"engine": "W", "test": "TestVerifC19W", "strategy": strat, "backends": n, "rounds": rounds, "active": active, "placement": placement})
+						}
+						if inFlight != "" {
+							r.Violate("C19/in-flight-request-not-finished/wire/"+placement, fmt.Sprintf("%s, %d backend(s), active checks %v: %s", strat, n, active, inFlight), n, map[string]interface{}{"engine": "W", "test": "TestVerifC19W", "strategy": strat, "backends": n, "rounds": rounds, "active": active, "placement": placement})
+						}
+						seenTotal = 0
+						for _, b := range bes {
+							_, seen := b.counts()
+							seenTotal += seen
+						}
+						open := 0
+						for wait := 0; wait < 100; wait++ {
+							open = 0
+							for _, b := range bes {
+								o, _ := b.counts()
+								open += o
+							}
+							if open == 0 {
+								break
+							}
+							time.Sleep(20 * time.Millisecond)
+						}
+						evals++
+						outs.Add(fmt.Sprintf("%s/%v/%s/%v", strat, active, placement, open == 0))
+						if open != 0 {
+							r.Violate("C19/pooled-connection-left-open/backend-keep-alive", fmt.Sprintf("%s, %d backend(s), %d round(s) of requests, active checks %v, signal placement %s: 2 s after shutdownGracefully returned %d of the %d connection(s) the proxy had opened to its backends are still open", strat, n, rounds, active, placement, open, seenTotal), n, map[string]interface{}{"engine": "W", "test": "TestVerifC19W", "strategy": strat, "backends": n, "rounds": rounds, "active": active, "placement": placement})
+						}
+						for _, b := range bes {
+							b.l.Close()
+						}
 					}
 				}
 			}
 		}
 	}
 	r.AddScenario(vres.Scenario{Name: "backend-keep-alive-connections-closed-on-shutdown", Engine: "W", Evaluations: evals, Distinct: int64(outs.N()), Outcomes: outs.N(),
-		Rule:  "one evaluation = a real Helios instance in front of 1..3 watching backends, rounds of proxied requests over a kept-alive client connection, then the shutdown sequence of main(); every connection the backends accepted must be closed within 2 s; distinct = (strategy, active checks, all closed) classes",
-		Bound: "5 strategies x 1..3 backends x 1..3 rounds x active checks on/off", Exhaustive: true,
+		Rule:  "one evaluation = a real Helios instance in front of 1..3 watching backends, rounds of proxied requests over a kept-alive client connection, then the repository's shutdownGracefully, with the signal falling when nothing is in flight, when a request is parked at its backend (answered 150 ms later) when a client has sent half of its request header (the rest follows 150 ms later), or when nothing is in flight after a backend has been removed (idle, or with a request parked at it that is answered after the removal); the request in flight must be answered 200, shutdownGracefully must return, and every connection the backends accepted must be closed within 2 s of its return; distinct = (strategy, active checks, placement, all closed) classes",
+		Bound: "5 strategies x 1..3 backends x (quiet: 1..3 rounds; other placements: 1 round) x active checks on/off x 5 signal placements (the two with a removal: 2..3 backends)", Exhaustive: true,
 		Extra: map[string]interface{}{"wall_s": time.Since(start).Seconds()}})
 }
